@@ -248,6 +248,9 @@ func (c *connectClient) NewConn(
 	spec Spec,
 	header http.Header,
 ) StreamingClientConn {
+	// For unary calls the header map belongs to the caller's Request, which may
+	// be reused: never resend the timeout of an earlier call.
+	header.Del(connectHeaderTimeout)
 	if deadline, ok := ctx.Deadline(); ok {
 		millis := int64(time.Until(deadline) / time.Millisecond)
 		if millis > 0 {
